@@ -6,7 +6,7 @@ import ast
 
 from .common import *  # noqa: F401,F403
 from .common import (
-    SVC, MOD, AnalysisError, AnchorError, Ctx, Facts, Registry, U, Unit, await_coro, call_name, own_nodes, parent, q, where, walk_own,
+    SVC, MOD, AnalysisError, AnchorError, Ctx, Facts, Registry, U, Unit, await_coro, call_name, eq_atom, own_nodes, parent, q, where, walk_own,
 )  # fmt: skip
 
 ob = Registry()
@@ -167,7 +167,7 @@ def check_children_predicate(c: Ctx) -> None:
         c.fail(u, f'loop iterates {U(loop.iter)}', 'event_are_all_children_complete iterates a subset of the children', node=loop)
     var = loop.target.id
     head = g.nodes_of(loop, ('for',))[0]
-    status_atom = f"{var}.event_status == 'completed'"
+    status_atom = eq_atom(f'{var}.event_status', "'completed'")
     rec_calls = [n for n in ast.walk(loop) if isinstance(n, ast.Call) and call_name(n) == u.name and isinstance(n.func, ast.Attribute) and U(n.func.value) == var]
     if not rec_calls:
         c.fail(u, 'no recursive check of the child\'s own children', 'grandchildren are not checked: a parent can complete before its descendants', node=loop)
@@ -181,7 +181,7 @@ def check_children_predicate(c: Ctx) -> None:
                is_barrier=lambda n, d: n is head,
                edge_ok=lambda n, e, d: None if (e.is_exc or (n is head and e.label != 'iter')) else facts.edge_ok(n, e, d), transfer=facts.transfer)
     if p is None:
-        c.ok(where(u, loop), f"an iteration continues only if {status_atom} and {rec_atom}")
+        c.ok(where(u, loop), f"an iteration continues only if {var}.event_status == 'completed' and {rec_atom}")
     else:
         c.fail(u, 'loop continues past a child that is not known complete (status and recursive check)', 'a child that is not complete (or whose descendants are not) does not make the test fail', node=loop, witness=c.path(head, p))
     # return True only after the loop finished, or on the cycle guard
